@@ -289,6 +289,98 @@ pub mod hm {
 }
 
 // ---------------------------------------------------------------------------------------------
+// regex::Regex (feature `textfilter`) is an external engine whose matching loop is out of reach and
+// not the subject of any property: the properties only say that a record passes "when its message
+// matches the regular expression". In the *build copy* the `use regex::Regex` imports are redirected
+// to this model: a compiled pattern is an opaque identity (`id`), `is_match` is an uninterpreted
+// predicate whose answer per id the harness chooses (symbolically) and which records what it was
+// asked about (how often, which pattern, which text). `Regex::new` succeeds iff the pattern does
+// not start with '(' (the harness menus use "(" as the malformed pattern) and derives the id from
+// the first byte, so that distinct patterns stay distinguishable. Part of the environment model.
+pub mod rx {
+    static mut ANSWER: [bool; 4] = [false; 4];
+    static mut CALLS: u64 = 0;
+    static mut LAST_ID: u8 = 0;
+    static mut LAST_LEN: usize = 0;
+    static mut LAST_TEXT: [u8; 8] = [0; 8];
+    // the message text the harness logs (length, first byte); usize::MAX = any text
+    static mut MSG_LEN: usize = usize::MAX;
+    static mut MSG_FIRST: u8 = 0;
+    pub fn set_answer(id: u8, a: bool) {
+        unsafe { ANSWER[(id % 4) as usize] = a }
+    }
+    /// The predicate is "answer[id] on the message the harness logs, the opposite answer on every
+    /// other text": asking about the wrong text (e.g. an empty string) changes the outcome.
+    pub fn set_message(len: usize, first: u8) {
+        unsafe {
+            MSG_LEN = len;
+            MSG_FIRST = first;
+        }
+    }
+    pub fn calls() -> u64 {
+        unsafe { CALLS }
+    }
+    pub fn last_id() -> u8 {
+        unsafe { LAST_ID }
+    }
+    pub fn last_len() -> usize {
+        unsafe { LAST_LEN }
+    }
+    pub fn last_text(i: usize) -> u8 {
+        unsafe { LAST_TEXT[i] }
+    }
+    #[derive(Clone, Debug)]
+    pub struct Regex {
+        pub id: u8,
+    }
+    #[derive(Clone, Debug)]
+    pub struct Error;
+    impl std::fmt::Display for Error {
+        fn fmt(&self, f: &mut std::fmt::Formatter<'_>) -> std::fmt::Result {
+            f.write_str("regex model: malformed pattern")
+        }
+    }
+    impl std::error::Error for Error {}
+    impl std::fmt::Display for Regex {
+        fn fmt(&self, f: &mut std::fmt::Formatter<'_>) -> std::fmt::Result {
+            f.write_str("regex-model")
+        }
+    }
+    impl Regex {
+        pub fn new(re: &str) -> Result<Regex, Error> {
+            let b = re.as_bytes();
+            if !b.is_empty() && b[0] == b'(' {
+                Err(Error)
+            } else {
+                Ok(Regex { id: if b.is_empty() { 0 } else { b[0] % 4 } })
+            }
+        }
+        pub fn is_match(&self, text: &str) -> bool {
+            unsafe {
+                CALLS += 1;
+                LAST_ID = self.id;
+                LAST_LEN = text.len();
+                let b = text.as_bytes();
+                let mut i = 0;
+                while i < 8 && i < b.len() {
+                    LAST_TEXT[i] = b[i];
+                    i += 1;
+                }
+                let a = ANSWER[(self.id % 4) as usize];
+                if MSG_LEN == usize::MAX || (b.len() == MSG_LEN && (b.is_empty() || b[0] == MSG_FIRST)) {
+                    a
+                } else {
+                    !a
+                }
+            }
+        }
+        pub fn as_str(&self) -> &str {
+            "regex-model"
+        }
+    }
+}
+
+// ---------------------------------------------------------------------------------------------
 /// `&str` view of harness-built bytes without running std's UTF-8 validator symbolically (its
 /// word-at-a-time fast path with `align_offset` is expensive in CBMC). The caller guarantees
 /// well-formedness by explicit assumptions on the bytes (see `utf8_ok_c3a9`).
@@ -338,6 +430,9 @@ where
 pub fn tlbuf_len() -> usize {
     unsafe { TLBUF.as_ref().map_or(0, |c| c.borrow().len()) }
 }
+
+pub mod stdmodels;
+pub use stdmodels::{pathm, set_extension_model};
 
 // ---------------------------------------------------------------------------------------------
 /// A `std::fs::Metadata` value for the metadata model: its fields are never read by the real
